@@ -372,7 +372,14 @@ def ref(ctx):
     stores = [n for n in u.own_nodes() if isinstance(n, ast.Assign) and isinstance(n.targets[0], ast.Subscript)
               and is_name(n.targets[0].value, scope)]
     ev = evaluator_calls(p, u)
-    ctx.require(len(ev) == 1 and len(stores) == 1, 'Ref.glomit: binding store / evaluation not found')
+    other = [c for c in calls_in(u) if isinstance(c.func, ast.Attribute) and is_name(c.func.value, scope)
+             and c.func.attr in ('setdefault', 'update', 'get', 'pop')]
+    ctx.ob(len(stores) == 1 and not [c for c in other if c.func.attr in ('setdefault', 'update', 'pop')], u,
+           'Ref(name, spec) binds by an unconditional store into its own frame: %s' % [norm(s_) for s_ in stores] ,
+           '' if len(stores) == 1 else 'binding through %s: a conditional or searching write does not shadow an outer '
+           'binding of the same name (ChainMap.setdefault looks through every enclosing frame)' % [norm(c) for c in other])
+    if len(ev) != 1 or len(stores) != 1:
+        return
     st = stores[0]
     key = deref(cfg, cfg.node_of(st), st.targets[0].slice)
     ok = isinstance(key, ast.Tuple) and len(key.elts) == 2 and p.global_qualname(u, key.elts[0]) == 'core.Ref' \
